@@ -216,7 +216,13 @@ func (rn *runner) shrink(f hlib.Failure) hlib.Failure {
 	if len(w) != 2 || w[0] == "probe" || w[1] == "-" {
 		return f
 	}
+	// Budgeted delta debugging: at most 2000 evaluations / 5 s.
+	evals, t0 := 0, time.Now()
 	still := func(c []byte) bool {
+		evals++
+		if evals > 2000 || time.Since(t0) > 5*time.Second {
+			return false
+		}
 		g, _ := rn.execCase(w[0]+" "+hx(c), false)
 		return g.Sig == f.Sig
 	}
@@ -264,6 +270,7 @@ func child(seed uint64, cases int, out, replay, corpus, currentPath string) {
 		}
 		res.Write(out)
 	}
+	failedTargets := map[string]bool{}
 	one := func(line string, cs uint64, minimize bool) {
 		f, class := rn.execCase(line, true)
 		res.Cases++
@@ -277,6 +284,10 @@ func child(seed uint64, cases int, out, replay, corpus, currentPath string) {
 		}
 		if f.Sig != "" {
 			f.Seed = cs
+			if failedTargets[t] {
+				return // one report per target; the target is skipped from now on
+			}
+			failedTargets[t] = true
 			if minimize && f.Kind == "panic" {
 				f = rn.shrink(f)
 			}
@@ -317,6 +328,10 @@ func child(seed uint64, cases int, out, replay, corpus, currentPath string) {
 		cr := rng.Fork()
 		cs := cr.Seed()
 		t := rn.order[cr.Intn(len(rn.order))]
+		if failedTargets[t.name] {
+			res.Count("skipped-after-failure:" + t.name)
+			continue
+		}
 		seedBytes := t.seeds[cr.Intn(len(t.seeds))]
 		data := seedBytes
 		switch k := cr.Intn(100); {
